@@ -147,3 +147,67 @@ func vh_c12_e2e_stop_q()  { vc12_e2e_stop() }
 func vh_c13_e2e_defer_q() { vc13_e2e_defer() }
 func vh_c01_e2e_slice_q() { vc01_e2e_slice() }
 func vh_c05_e2e_slice_q() { vc01_e2e_slice() }
+
+// C05: run-time faults of every kind the statement lists, raised by tiny
+// templates on symbolic operands, come back from Run as *PanicError values
+// (or nil when the operands make the operation valid), never as a host panic.
+var vc05Faults = []string{
+	"{% var m map[string]int %}{% m[s] = a %}",
+	"{% var m map[string]int %}{{ m[s] }}{% delete(m, s) %}",
+	"{% var i interface{} = a %}{% if b > 0 %}{% i = s %}{% end %}{{ i.(string) }}",
+	"{% var p *int %}{% if b > 0 %}{% p = &a %}{% end %}{{ *p }}",
+	"{% m := map[interface{}]int{} %}{% var k interface{} = a %}{% if b > 0 %}{% k = sl %}{% end %}{% m[k] = 1 %}",
+	"{% var f func() int %}{% if b > 0 %}{% f = func() int { return a } %}{% end %}{{ f() }}",
+	"{% ch := make(chan int, 1) %}{% close(ch) %}{% if b > 0 %}{% close(ch) %}{% end %}",
+	"{% ch := make(chan int, 1) %}{% if b > 0 %}{% close(ch) %}{% end %}{% ch <- a %}",
+	"{% var ch chan int %}{% if b > 0 %}{% close(ch) %}{% end %}",
+	"{% x := sl[a:b:3] %}{{ len(x) }}",
+	"{% x := sl[1:a:b] %}{{ len(x) }}",
+	"{% arr := [3]int8{1, 2, 3} %}{{ arr[a] }}",
+	"{% x := make([]int16, a) %}{{ len(x) }}",
+	"{% x := make([]int16, 1, a) %}{{ len(x) }}",
+	"{% x := make([]string, a, b) %}{{ len(x) }}",
+	"{{ s[a] }}",
+	"{{ s[a:b] }}",
+	"{{ s[a:] }}{{ s[:b] }}",
+	"{% var i interface{} = a %}{% if b > 0 %}{% i = int8(a) %}{% end %}{{ i.(int) + 1 }}",
+	"{% c := a / b %}{% d := a % b %}{% if c == d %}T{% end %}",
+	"{% var i8 int8 = int8(a) %}{% var j8 int8 = int8(b) %}{% c := i8 / j8 %}{% d := i8 % j8 %}{% if c == d %}T{% end %}",
+	"{% var u8 uint8 = uint8(a) %}{% var v8 uint8 = uint8(b) %}{% c := u8 / v8 %}{% d := u8 % v8 %}{% if c == d %}T{% end %}",
+	"{% var i interface{} = sl %}{% var j interface{} = sl %}{% if b > 0 %}{{ i == j }}{% end %}",
+	"{% sl[a] = int16(b) %}{{ sl[a] }}",
+	"{% x := append(sl[:a], sl[b:]...) %}{{ len(x) }}",
+	"{% n := copy(sl[a:], sl[:b]) %}{{ n }}",
+	"{% m := map[string][]int16{\"k\": sl} %}{{ m[s][a] }}",
+	"{% var ps *[]int16 %}{% if b > 0 %}{% ps = &sl %}{% end %}{{ (*ps)[a] }}",
+}
+
+func vc05_e2e_faults(lo, hi int, small bool) {
+	which := lo + vsym_choice(hi-lo)
+	sl := []int16{1, 2, 3}
+	a, b := int(vsym_i64()), int(vsym_i64())
+	if small {
+		vassume(-2 <= a && a <= 5 && -2 <= b && b <= 5)
+	}
+	s := vsym_string(2)
+	decls := native.Declarations{"sl": &sl, "a": &a, "b": &b, "s": &s}
+	tmpl, err := BuildTemplate(Files{"index.txt": []byte(vc05Faults[which])}, "index.txt", &BuildOptions{Globals: decls})
+	vassert(err == nil, "builds")
+	var out vbuf
+	err, rec := vrunRecover(tmpl, &out)
+	vassert(rec == nil, "no-host-panic")
+	if err != nil {
+		_, ok := err.(*PanicError)
+		vassert(ok, "run-error-is-a-PanicError")
+		vreach("fault")
+	} else {
+		vreach("ran")
+	}
+}
+
+func vh_c05_e2e_faults1_q()  { vc05_e2e_faults(0, 10, false) }
+func vh_c05_e2e_faults2_q()  { vc05_e2e_faults(10, 20, false) }
+func vh_c05_e2e_faults3_q()  { vc05_e2e_faults(20, len(vc05Faults), false) }
+func vh_c05_e2e_faults1s_q() { vc05_e2e_faults(0, 10, true) }
+func vh_c05_e2e_faults2s_q() { vc05_e2e_faults(10, 20, true) }
+func vh_c05_e2e_faults3s_q() { vc05_e2e_faults(20, len(vc05Faults), true) }
